@@ -109,7 +109,7 @@ def sym_int_var(name, lo, hi):
 
 class SFloat(Sym):
     """a binary64 value known as exact-value + error bound"""
-    __slots__ = ('aff', '_t', 'err', 'mag', 'note', 'nearest', 'zsafe')
+    __slots__ = ('aff', '_t', 'err', 'mag', 'note', 'nearest', 'zsafe', 'xrep')
     _pytype = float
 
     @property
@@ -131,6 +131,17 @@ class SFloat(Sym):
         self.note = note
         self.nearest = False       # True: the computed value is the double nearest to the exact value (integers are then exact)
         self.zsafe = False         # True: computed >= 0, and computed == 0 exactly when the exact value is 0
+        self.xrep = False          # True: whenever the exact value is itself a double, the computed value equals it
+
+    def is_xrep(self):
+        return self.err == 0 or self.nearest or self.xrep
+
+    def _nonneg_exact_integer(self):
+        if self.err != 0 or self.aff is None or not self.aff.all_int_vars():
+            return False
+        D, off = self.aff.lattice()
+        lo, hi = self.aff.bounds()
+        return D == 1 and off == 0 and lo is not None and lo >= 0
 
     # -- construction ------------------------------------------------------------
     @classmethod
@@ -151,6 +162,8 @@ class SFloat(Sym):
         r, e = lift_const(c)
         x = cls(Aff(r), None, e, abs(r))
         x.zsafe = r >= 0 and (r != 0 or e == 0)
+        if isinstance(c, float):
+            x.note = ('const', c)          # the double itself (the affine form carries a short rational +- err)
         return x
 
     def exact(self):
@@ -191,6 +204,13 @@ class SFloat(Sym):
                 r.mag = max(abs(lo), abs(hi))
         r.err = a.err + b.err + U * (r.mag + a.err + b.err)
         r.zsafe = sign > 0 and a.zsafe and b.zsafe      # a sum of non-negative values is 0 iff all of them are
+        if sign > 0 and r.mag < 2 ** 52:
+            # n + x with n a non-negative integer (exact) and x >= 0 exact-when-representable: if the exact sum e is a double,
+            # n is a multiple of ulp(e) (ulp(e) <= 1 divides integers), so x = e - n is a multiple of ulp(e) below e, hence a
+            # double, hence computed exactly, and the sum n + x = e is then exact too
+            for n, x in ((a, b), (b, a)):
+                if n._nonneg_exact_integer() and x.is_xrep() and x.zsafe:
+                    r.xrep = True
         return r
 
     def __add__(self, o): return self._addsub(o, 1)
@@ -294,6 +314,8 @@ class SFloat(Sym):
         r = SFloat(None, self.t / o.t, 0, self.mag / dmin)
         r.err = self.err / dmin + self.mag * o.err / (dmin * dmin)
         r.err += U * (r.mag + r.err)
+        if self.aff is not None and self.aff.is_const() and self.err == 0 and lo is not None and lo > 0:
+            r.note = ('quot', self.aff.c0, o)          # a constant over a positive symbolic divisor (see _cmp)
         return r
 
     def __rtruediv__(self, o):
@@ -402,14 +424,74 @@ class SFloat(Sym):
                     return op in ('<', '<=', '!=')
         if err == 0:
             return mkbool({'<': dt < 0, '<=': dt <= 0, '>': dt > 0, '>=': dt >= 0, '==': dt == 0, '!=': dt != 0}[op])
+        q = self._cmp_quot(o, op)
+        if q is not None:
+            return q
         E = z3.RealVal(str(err))
         if c.decide(dt > E):
             return op in ('>', '>=', '!=')
         if c.decide(dt < -E):
             return op in ('<', '<=', '!=')
-        # inside the zone the computed comparison may go either way
+        # inside the zone: a value that is the double NEAREST to its exact value e (e on a lattice off/D + Z/D relative to K)
+        # against a constant double K: with 1/D > 2 err at most one lattice point e* lies in the zone, the computed value is
+        # then float(e*) (CPython converts a Fraction correctly rounded), and the comparison is that of two known doubles
+        import operator
+        for a, b, flip in ((self, o, False), (o, self, True)):
+            if not (b.aff is not None and b.aff.is_const()):
+                continue
+            if b.err == 0 and Fraction(float(b.aff.c0)) == b.aff.c0:
+                Kd = float(b.aff.c0)
+            elif isinstance(b.note, tuple) and b.note[0] == 'const':
+                Kd = b.note[1]
+            else:
+                continue
+            if a.nearest and a.aff is not None and a.aff.all_int_vars() and a.mag < 2 ** 52:
+                K = b.aff.c0
+                D, off = a.aff.add(b.aff, -1).lattice()
+                if Fraction(1, D) > 2 * err:
+                    cands = [dl for dl in (off / D, (off - 1) / D) if abs(dl) <= err]
+                    if not cands:
+                        c.assume(False)                     # no lattice point in the zone: the path does not exist
+                    delta = cands[0]
+                    c.assume(dt == (z3.RealVal(str(delta)) if not flip else z3.RealVal(str(-delta))))
+                    fa, fb = float(K + delta), Kd
+                    if flip:
+                        fa, fb = fb, fa
+                    return {'<': operator.lt, '<=': operator.le, '>': operator.gt, '>=': operator.ge, '==': operator.eq, '!=': operator.ne}[op](fa, fb)
         c.notes.append(('float-compare-in-error-zone', op))
         return c.decide(c.fresh('fcmp', 'bool'))
+
+    def _cmp_quot(self, o, op):
+        """q = fl(A/d) (A > 0 a constant double, d > 0 computed with |d - e| <= err_d) against a constant double K > 0, decided on
+        the DIVISOR: with d0 = A/K and z = err_d + 4u*d0,
+            e < d0 - z  =>  d < d0(1-4u)  =>  A/d > K(1+4u) > K + ulp(K)  =>  q > K      (rounding is monotone, fl(K) = K)
+            e > d0 + z  =>  q < K                                                         (symmetric)
+        and inside |e - d0| <= z: if d0 is a double on the lattice Z/D of e with 1/D > z, d is exact-when-representable and
+        fl(A/d0) == K, then e == d0, d == d0 and q == K; otherwise the comparison may go either way."""
+        for a, b, flip in ((self, o, False), (o, self, True)):
+            if not (isinstance(a.note, tuple) and a.note[0] == 'quot' and b.aff is not None and b.aff.is_const() and b.err == 0 and b.aff.c0 > 0):
+                continue
+            A, d = a.note[1], a.note[2]
+            K = b.aff.c0
+            if A <= 0 or Fraction(float(A)) != A or Fraction(float(K)) != K:
+                continue
+            c = ctx()
+            d0 = A / K
+            z = d.err + 4 * U * d0
+            opa = op if not flip else {'<': '>', '<=': '>=', '>': '<', '>=': '<=', '==': '==', '!=': '!='}[op]
+            if c.decide(d.t < z3.RealVal(str(d0 - z))):
+                return opa in ('>', '>=', '!=')
+            if c.decide(d.t > z3.RealVal(str(d0 + z))):
+                return opa in ('<', '<=', '!=')
+            if d.is_xrep() and d.aff is not None and d.aff.all_int_vars() and d.mag < 2 ** 52 and Fraction(float(d0)) == d0 \
+                    and Fraction(float(A) / float(d0)) == K:
+                D, off = d.aff.add(Aff(d0), -1).lattice()
+                if off == 0 and Fraction(1, D) > z:
+                    c.assume(d.t == z3.RealVal(str(d0)))
+                    return opa in ('>=', '<=', '==')
+            c.notes.append(('float-compare-in-error-zone', op))
+            return c.decide(c.fresh('fcmp', 'bool'))
+        return None
 
     def __lt__(self, o): return self._cmp(o, '<')
     def __le__(self, o): return self._cmp(o, '<=')
@@ -477,6 +559,17 @@ class SFloat(Sym):
         if n < 0:
             raise OutOfSubset('round() to a negative number of digits')
         c.assumptions.add('round(x, n) returns the double nearest to the decimal rounding of the binary value (CPython)')
+        # round is a function: rounding the same value again gives the same result (same choice at a tie)
+        cache = c.__dict__.setdefault('_round_cache', {})
+        hit = cache.get((id(self), nd))
+        if hit is not None and hit[0] is self:
+            return hit[1]
+        r = self._sym_round1(nd, n)
+        cache[(id(self), nd)] = (self, r)
+        return r
+
+    def _sym_round1(self, nd, n):
+        c = ctx()
         sc = 10 ** n
         R = c.fresh('rnd')
         slack = z3.RealVal(str(Fraction(1, 2) + self.err * sc))
@@ -486,12 +579,18 @@ class SFloat(Sym):
             lo, hi = self.aff.bounds()
         if lo is None:
             lo, hi = -self.mag, self.mag
-        declare_var(str(R), R, math.floor(lo * sc) - 1, math.ceil(hi * sc) + 1)
+        rlo = math.floor(lo * sc) - 1
+        if self.zsafe:
+            # the computed value is >= 0, so is its decimal rounding; the double nearest R/10^n is 0 only for R = 0
+            c.assume(R >= 0)
+            rlo = max(rlo, 0)
+        declare_var(str(R), R, rlo, math.ceil(hi * sc) + 1)
         if nd is None:
             return SInt(R)
         r = SFloat(Aff(0, {str(R): Fraction(1, sc)}), None, 0)
         r.err = r.mag * U
         r.nearest = True
+        r.zsafe = self.zsafe
         return r
 
     def _sym_repr(self):
